@@ -172,7 +172,9 @@ pub fn facts<'a>(cx: &'a Cx) -> BTreeMap<u32, AF<'a>> {
             K::Effect { what, ok, arg, .. } if *what == "reap_stop" => {
                 if let Some(task) = ix.task_of(*arg as u32) {
                     if let Some(af) = out.get_mut(&task) {
-                        af.stops.push(StopReq { b: e.stamp, r: e.stamp, accepted: *ok, kind: "reap" });
+                        // begun at the matching reap_begin marker (logged before the call)
+                        let b = ix.ev[..e.stamp as usize].iter().rev().find(|x| matches!(&x.k, K::Effect { what, arg: a, .. } if *what == "reap_begin" && a == arg)).map(|x| x.stamp).unwrap_or(e.stamp);
+                        af.stops.push(StopReq { b, r: e.stamp, accepted: *ok, kind: "reap" });
                     }
                 }
             }
